@@ -227,6 +227,56 @@ func main() {
 			}
 		}
 	}
+	// ---------- long command lines ----------
+	// one command line of 4 KiB … 70 KiB (a UID set with many members, a SEARCH with many keys, a LIST pattern, a STORE flag
+	// list): it gets one tagged completion with its own tag — refused or carried out — and the command behind it is served
+	{
+		long := func(n int, head string, piece func(i int) string, sep, tail string) string {
+			var sb strings.Builder
+			sb.WriteString(head)
+			for i := 0; sb.Len()+len(tail) < n; i++ {
+				if i > 0 {
+					sb.WriteString(sep)
+				}
+				sb.WriteString(piece(i))
+			}
+			sb.WriteString(tail)
+			return sb.String()
+		}
+		for _, st := range []string{"unauth", "auth", "selected-rw"} {
+			for _, n := range []int{4000, 8150, 8185, 8200, 9000, 17500, 70000} {
+				lines := []struct{ name, text string }{
+					{"UID FETCH", long(n, "UID FETCH ", func(i int) string { return fmt.Sprint(1001 + 2*i) }, ",", " (FLAGS)")},
+					{"SEARCH", long(n, "SEARCH ALL", func(i int) string { return fmt.Sprintf(" SUBJECT w%d", i) }, "", "")},
+					{"LIST", long(n, `LIST "" "`, func(i int) string { return "ab%" }, "", `"`)},
+					{"STORE", long(n, "STORE 1 +FLAGS (", func(i int) string { return fmt.Sprintf("kw%d", i) }, " ", ")")},
+				}
+				for _, ln := range lines {
+					cn := open(w, "tls-double")
+					a := abs{}
+					if st != "unauth" {
+						cn.c.Cmd("LOGIN alice@example.com pw")
+						a.authed = true
+					}
+					if st == "selected-rw" {
+						cn.c.Cmd("SELECT INBOX")
+						a.selected = true
+					}
+					w.Backend.Take()
+					replay := []string{"single tls-double " + st + " " + hx.H(ln.text)}
+					check(rep, w, cn, &a, ln.name, ln.text, replay)
+					// the connection is still in step: the next command gets its own completion too
+					check(rep, w, cn, &a, "NOOP", "NOOP", append(replay, hx.H("NOOP")))
+					rep.Case(fmt.Sprintf("long|%s|%s|%d", st, ln.name, n), true)
+					rep.Hit("long-line:" + st)
+					cn.c.Close()
+					if len(rep.Violations) > 0 {
+						break
+					}
+				}
+			}
+		}
+	}
 	// ---------- sequences ----------
 	if o.Replay == "" {
 		rng := hx.NewRng(o.Seed)
